@@ -186,6 +186,6 @@ def run(rep, tier):  # noqa: F811
     append_tier_table(rep, "point", "interval", 1, 1)
     append_textgrid_table(rep)
     from .c12 import lifting
-    rep.rule("L-lifting-editTimestamps", "Textgrid.editTimestamps on a generic textgrid (including an empty tier): per-tier result equals the tier-level editTimestamps; errors and warnings as for the tiers")
+    rep.rule("L-lifting-editTimestamps", "Textgrid.editTimestamps on a generic textgrid (including an empty tier): per-tier result equals the tier-level editTimestamps; errors as for the tiers; something is reported (printed) iff a tier-level operation reports it -- nothing in 'silence' mode")
     for shape in ([("interval", "I", 1), ("point", "E", 0)], [("interval", "E", 0), ("point", "P", 1)]):
         lifting(rep, shape, only="editTimestamps")
